@@ -285,9 +285,13 @@ func handleCAP(c *Client, e Event) {
 			if !hasTLSConnection {
 				c.state.sts.beginUpgrade = true
 
+				// Handlers may call back into the client (state getters), so they
+				// must not run while the state lock is held.
+				c.state.Unlock()
 				c.RunHandlers(&Event{Command: STS_UPGRADE_INIT})
 				c.debug.Println("strict transport security policy provided by server; closing connection to begin upgrade...")
 				c.Close()
+				c.state.Lock()
 				return
 			}
 		}
